@@ -5,7 +5,7 @@
 package connection
 
 // Every function under contract in this package also serves the properties that depend on the whole package.
-//@ package-props C16
+//@ package-props C16 C12
 
 // The address table is only touched under Manager.mu. Every entry is a record filed
 // under its own address, and every record of this manager that is alive - its dial
